@@ -423,6 +423,14 @@ func fixedFamilies(level string, thorough bool) []*family {
 	}
 	operands2 = append(operands2, vRange(0, 2, 1), nil)
 	add("concat", operands2, operands2)
+	// chains of slices and concatenations whose results are all looked at afterwards
+	var operands3 []any
+	for _, t := range []string{"string", "list", "tuple"} {
+		for _, s := range stringsUpTo(alpha, 3) {
+			operands3 = append(operands3, asType(t, s))
+		}
+	}
+	add("persist", operands3, operands3)
 	return fs
 }
 
@@ -631,6 +639,8 @@ func sourceText(op string, pt []any) string {
 		return t(pt[0]) + " % " + t(pt[1])
 	case "concat":
 		return t(pt[0]) + " + " + t(pt[1])
+	case "persist":
+		return "persist(" + t(pt[0]) + ", " + t(pt[1]) + ")  # a = x[:2]; b = a + u; c = a + u[:1]; d = x[1:]; e = d + u; f = x + u; g = f[:len(x)] + u; h = x * 1; i = h + u; j = (x + u)[::2]; k = j + u; m = j + x; n = x[:0] + u; o = n + x; [x, u, a, ..., o]"
 	case "repeat":
 		return t(pt[0]) + " * " + t(pt[1])
 	}
@@ -656,6 +666,8 @@ func opLabel(op string, pt []any) string {
 		return pt[0].(string)
 	case "concat":
 		return "+/" + typeOfTagged(pt[0]) + "," + typeOfTagged(pt[1])
+	case "persist":
+		return "slice-and-concatenate chains/" + typeOfTagged(pt[0]) + "," + typeOfTagged(pt[1])
 	case "repeat":
 		a, b := typeOfTagged(pt[0]), typeOfTagged(pt[1])
 		return "*/" + a + "," + b
@@ -849,7 +861,7 @@ func labelKey(op string, pt []any) string {
 		return pt[1].(string)
 	case "seq":
 		return pt[0].(string)
-	case "concat", "repeat":
+	case "concat", "repeat", "persist":
 		return typeOfTagged(pt[0]) + "," + typeOfTagged(pt[1])
 	}
 	return ""
